@@ -459,6 +459,8 @@ class Driver:
         s = self.sig(op["sig"])
         w0 = self.iow0()
         rc = self.fn("utc")(self.wr, op["sig"], op["id"], op["t"])
+        if rc == 0:
+            s.setdefault("utcw", []).append((op["id"] - s["base"], op["t"] - s["tbase"]))
         self.emit({"e": "Utc", "sig": op["sig"], "id": op["id"] - s["base"], "t": op["t"] - s["tbase"], "rc": rc,
                    "w": self.wspan(w0)})
 
@@ -826,7 +828,21 @@ class Driver:
                         return 0
                     uc = UTC_CBK(ucb)
                     urc = self.L.jls_rd_utc(h, g, -(1 << 60), uc, None)
-                    obs["utcs"].append({"sig": g, "rc": urc, "items": uout})
+                    # sample id -> time, asked twice (the second call uses whatever the first one loaded)
+                    conv = []
+                    if s is not None and s.get("utcw"):
+                        ids_w = sorted({u_[0] for u_ in s["utcw"]})
+                        qs = [ids_w[0], ids_w[len(ids_w) // 2], ids_w[-1]]
+                        if len(ids_w) >= 2:
+                            qs.append((ids_w[-1] + ids_w[-2]) // 2)
+                        for q_rel in qs:           # q_rel is relative to the signal's base; the API wants it relative to the first sample
+                            row = [_clip(q_rel)]
+                            for _ in range(2):
+                                tv = ct.c_int64(0)
+                                crc = self.L.jls_rd_sample_id_to_timestamp(h, g, q_rel + ss["base"] - aoff[0], ct.byref(tv))
+                                row += [int(crc), _clip(tv.value - ss["tbase"]) if crc == 0 else 0]
+                            conv.append(row)
+                    obs["utcs"].append({"sig": g, "rc": urc, "items": uout, "conv": conv})
         ud = []
 
         def udcb(_u, meta, stype, data, size):
@@ -1133,6 +1149,35 @@ class Driver:
                 elif d["ck"] == 3 and d["lvl"] == 1:
                     idx1.setdefault(d["sig"], []).extend(d.get("offs", []))
         return sums, idx1
+
+    def op_sumvals(self, op):
+        """Stored FSR summary entries of a closed file, lifted from its bytes: one SumEntries event per SUMMARY chunk
+        (levels whose entries span at most 4096 samples) with the integer projection of every entry."""
+        import lifter
+        with open(self.path(op.get("file", "a")), "rb") as f:
+            img = f.read()
+        fh, chunks, why = lifter.parse_image(img)
+        bases = {g: (s["base"], s["tbase"]) for g, s in self.sigs.items()}
+        defs = {}
+        for ch in chunks:
+            d = lifter.decode(ch, str_tok, fnv, bases)
+            if d["kind"] == "signal":
+                defs[d["id"]] = (d["sdf"], d["sumdf"])
+            if d["kind"] == "track" and d["tt"] == 0 and d["ck"] == 4 and d.get("ok") and d["sig"] in defs:
+                sdf, sumdf = defs[d["sig"]]
+                span = sdf * (sumdf ** (d["lvl"] - 1)) if d["lvl"] >= 1 else 0
+                if not (0 < span <= 4096) or d["cnt"] > 600:
+                    continue
+                wide = d["esb"] == 256
+                ents = []
+                for hx in d["ent"]:
+                    b = bytes.fromhex(hx)
+                    mean, std, mn, mx = struct.unpack("<4d" if wide else "<4f", b)
+                    pr = stat_projection(mean, std, mn, mx, span)
+                    import math
+                    pr["m1000"] = _clip(round(mean * 1000)) if math.isfinite(mean) and abs(mean) < 2e6 else 0
+                    ents.append(pr)
+                self.emit({"e": "SumEntries", "sig": d["sig"], "lvl": d["lvl"], "ts": d["ts"], "span": _clip(span), "wide": wide, "ent": ents})
 
     def runs_abs(self, s, dt, a0, got):
         """candidate runs for samples with absolute ids a0.. (used for DATA chunks of a file image)"""
